@@ -7,11 +7,12 @@ Local Open Scope Q_scope.
 
 Inductive enode :=
   | EGroup (id : string) (t abs : ts) (abs_layer : box) (ch : list enode)
-  | ELeaf (id : string) (abs : ts) (abs_bbox : box).
+  | ELeaf (id : string) (abs : ts) (abs_sbbox : box).   (* abs_sbbox: absolute STROKE box (image: its absolute box) *)
 Definition eid (n : enode) : string := match n with EGroup i _ _ _ _ => i | ELeaf i _ _ => i end.
 Definition eabs (n : enode) : ts := match n with EGroup _ _ a _ _ => a | ELeaf _ a _ => a end.
 
-(* Node::abs_layer_bounding_box: groups always have one; path / image / text: abs_bounding_box().to_non_zero_rect() *)
+(* Node::abs_layer_bounding_box: groups always have one; path / text: abs_stroke_bounding_box().to_non_zero_rect() (ece95dc:
+   a layer includes the stroke); image: abs_bounding_box().to_non_zero_rect() *)
 Definition abs_layer_bounding_box (n : enode) : option box :=
   match n with
   | EGroup _ _ _ l _ => Some l
